@@ -91,14 +91,16 @@ Definition step2 (has_body : bool) (s : h2) (l : label2) : option h2 :=
   | YResp b =>
       match resp2 s, sent_hdr s, donec2 s with
       | None, true, false =>
-          Some (mkH2 (c2 s) (d2 s) (ctx2 s) (abort2 s) (sent_hdr s) (sent_end s) (Some b) (negb b || peer_end s)
+          (* END_STREAM on the HEADERS frame is a step of its own (YEnd): the read loop closes
+             respHeaderRecv first and peerClosed afterwards *)
+          Some (mkH2 (c2 s) (d2 s) (ctx2 s) (abort2 s) (sent_hdr s) (sent_end s) (Some b) (peer_end s)
                      (rst2 s) (bclosed2 s) (donec2 s) (pipe2 s) (failed2 s))
       | _, _, _ => None
       end
   | YData => match pipe2 s, peer_end s with BOpen, false => Some s | _, _ => None end
   | YEnd =>
       match resp2 s, peer_end s, pipe2 s with
-      | Some true, false, (BOpen | BNone) =>
+      | Some _, false, (BOpen | BNone) =>
           Some (mkH2 (c2 s) (d2 s) (ctx2 s) (abort2 s) (sent_hdr s) (sent_end s) (resp2 s) true
                      (rst2 s) (bclosed2 s) (donec2 s) (pipe2 s) (failed2 s))
       | _, _, _ => None
